@@ -193,7 +193,7 @@ def gen_instants(ctx):
             for t in (b + d, b - d):
                 if TS_MIN <= t <= TS_MAX:
                     out.append((t, "boundary"))
-    n = 700 if not ctx.thorough else 9000
+    n = 320 if not ctx.thorough else 9000
     for i in range(n):
         k = rng.randrange(4)
         if k == 0:
@@ -228,7 +228,7 @@ def gen_durations(ctx):
                     out.append((t, "boundary"))
     for t in (-1500000, -1, -999999, -1000001, -500000, 1 << 53 | 1, -(1 << 53 | 1), DUR_MAX - 1, -DUR_MAX + 1, 15, 99, 100, 101):
         out.append((t, "boundary"))
-    n = 700 if not ctx.thorough else 9000
+    n = 450 if not ctx.thorough else 9000
     for i in range(n):
         k = rng.randrange(4)
         if k == 0:
@@ -433,8 +433,8 @@ def run(ctx):
             key_instants.discard(t)
         else:
             offs = [0, rng.choice(WHOLE_OFFSETS), rng.choice(SPECIAL_OFFSETS + SUBSECOND_OFFSETS)]
-            if tag == "random":
-                offs = offs[rng.randrange(3):][:2]
+            if not ctx.thorough:
+                offs = offs[rng.randrange(3):][:2] if tag == "random" else [offs[i % 3], offs[(i + 1 + i // 3 % 2) % 3]]
         for off in offs:
             wall = t + off
             if not (TS_MIN <= wall <= TS_MAX):
@@ -462,8 +462,9 @@ def run(ctx):
         cal = cal_of(dt)
         add(f"cres (copt CB) (to_dict_ts {coq_bytes(cal.encode())} {cdt})", res(lambda: M(f=dt).to_dict().get("f"), opt_str),
             dict(d, op="to_dict"))
-        add(f"cres CB (timestamp_to_json {coq_bytes(cal.encode())} {cdt})", res(lambda: bp._Timestamp.timestamp_to_json(dt), lambda s: cb(s.encode())),
-            dict(d, op="timestamp_to_json"))
+        if t == 0 or ctx.thorough:  # to_dict above goes through it for every other instant
+            add(f"cres CB (timestamp_to_json {coq_bytes(cal.encode())} {cdt})", res(lambda: bp._Timestamp.timestamp_to_json(dt), lambda s: cb(s.encode())),
+                dict(d, op="timestamp_to_json"))
         try:
             b = bytes(M(f=dt))
         except Exception:  # noqa
@@ -591,7 +592,7 @@ def run(ctx):
     t3_from = len(pairs)
     for wall, off, fno, tag in dts:
         t = wall - off
-        if off % 10**6 or (tag == "random" and rng.random() < 0.5):
+        if off % 10**6 or (not ctx.thorough and rng.random() < (0.75 if tag != "corpus" else 0.9)):
             continue
         dt = mk_dt(wall, off)
         r = timestamp_pb2.Timestamp()
@@ -613,7 +614,7 @@ def run(ctx):
         add(f"copt CZ (ts_suffix_parse {coq_bytes(js[19:].encode())})", cz(isoparse(js).microsecond), {"kind": "T3", "op": "isoparse fraction (ns)", "string": js})
         add(f"CZ (ts_to_us ({sec}) ({nn}))", cz(inst(r.ToDatetime(tzinfo=timezone.utc))), {"kind": "T3", "op": "Timestamp.ToDatetime", "pair": [sec, nn]})
     for us, fno, tag in durs:
-        if abs(us) > DUR_MAX or (tag == "random" and rng.random() < 0.5):
+        if abs(us) > DUR_MAX or (not ctx.thorough and tag != "corpus" and rng.random() < 0.6):
             continue
         r = duration_pb2.Duration()
         r.FromTimedelta(timedelta(microseconds=us))
